@@ -51,7 +51,7 @@ def spec(tier, seed):
                     {"name": "start lines survive write-then-parse for every value (write_header_to x parse_hunk::target_line)", "function": "write_header_to", "target": "lib",
                      "run": lambda f, v, w: _mir.vc_start_line_roundtrip(f, v, w)}],
         "level": "model_checking",
-        "functions": ["Hunk::write_header_to", "TextHunk::write_to (find_closest_match)", "parse_hunk_header", "parse_hunk (target_line, MIR)"],
+        "functions": ["Hunk::write_header_to", "TextHunk::write_to (find_closest_match)", "parse_hunk_header", "parse_hunk (target_line, MIR)", "write_file_patch_header_to (MIR: mode lines)"],
         "symbolic": "(ii') every line byte (4-letter alphabet incl. backslash); (i) concrete start lines / counts from the matrix through the real formatter; "
                     "start-line arithmetic: every 64-bit value (MIR VC)",
         "bounds": {"lines_per_hunk_side": "<= 1 (quick), <= 2 (thorough)", "start_lines": [0, 1, 9, 10, 99], "loop_unrolling": "per-loop bounds with unwinding assertions"},
@@ -60,7 +60,7 @@ def spec(tier, seed):
                         "the scan lemma gives write-then-parse for the body; the writer reads nothing but the two sequences and the start lines, so writing the re-parsed hunk reproduces the text",
                         "prefix/suffix context *counts* may legitimately change when a removed and an added line are equal: only line sequences and start lines are compared"],
         "outside": ["the direct parse(write(h)) round trip on symbolic bytes and hunks with more than 2 lines per side (formula exceeds 12 GB)",
-                    "file headers (names, modes, hashes, rename flag; git metadata keywords): the formatter's output is not observable with a canned sink and the real formatter + parse_patch "
+                    "file headers other than the mode lines (names, hashes, rename flag; the exact keywords): the formatter's output is not observable with a canned sink and the real formatter + parse_patch "
                     "exceeds 10 GB even on a concrete 30-byte patch; the 'deleted file mode' keyword defect named in the property text was repaired by hand (fix: c510d98) and is covered by no check",
                     "lines without terminator inside the writer ('\\ No newline' tag emission)", "garbage between file patches, patch header text"],
         "explanation": "hunk level only: header numbers round-trip (Kani on concrete numbers through the real formatter, MIR VC for every value), and the body the writer emits is, record by record, "
